@@ -5,7 +5,7 @@
    pointer arithmetic regenerated into gen/Gen_locks.v; reference: record map + high-water mark (sstep). *)
 From Coq Require Import ZArith List Bool Lia.
 From PCB Require Import lib.Result lib.PyInt gen.Gen_locks model.Locks model.RandomFile proofs.RandomFile_proofs.
-From PCB Require Import model.SharedFile model.FieldVars proofs.Locks_proofs proofs.SharedFile_proofs proofs.FieldVars_proofs.
+From PCB Require Import model.SharedFile model.FieldVars proofs.Locks_proofs proofs.SharedFrame_proofs proofs.SharedFile_proofs proofs.FieldVars_proofs.
 Import ListNotations.
 Open Scope Z_scope.
 
